@@ -904,3 +904,132 @@ func isUnsignedInt(t types.Type) bool {
 	b, ok := t.Underlying().(*types.Basic)
 	return ok && b.Info()&types.IsUnsigned != 0
 }
+
+// touchesFiles: fn (or something it can reach) opens or stats a file.
+func (h H) touchesFiles(fn *ssa.Function) bool {
+	for f := range h.P.Reachable(fn) {
+		hit := false
+		core.Instrs(f, func(in ssa.Instruction) {
+			if c, ok := in.(ssa.CallInstruction); ok {
+				if sc := c.Common().StaticCallee(); sc != nil && sc.Pkg != nil && sc.Pkg.Pkg.Path() == "os" {
+					switch sc.Name() {
+					case "Open", "OpenFile", "Stat", "Lstat", "ReadFile", "ReadDir":
+						hit = true
+					}
+				}
+			}
+		})
+		if hit {
+			return true
+		}
+	}
+	return false
+}
+
+// snapshotOpenPinned (C09.8 / C15.11): opening the latest snapshot for a
+// follower or a restore races with snapshotSink.done publishing a newer one and
+// pruning (applyRetain removes every snapshot beyond `retain` whose use count
+// is 0). The opener therefore registers its use of the latest index while
+// holding snaps.mu (which done holds across publish + prune) BEFORE it looks at
+// any file of that snapshot, and works with that index only; done prunes under
+// the same hold of snaps.mu it publishes under; applyRetain spares used ones.
+func (h H) snapshotOpenPinned(rule string) {
+	fn := h.fn("raft:(*snapshots).open")
+	fi := h.P.Info(fn)
+	ls := fi.Locksets(core.LockState{})
+	var pins []*ssa.MapUpdate
+	core.Instrs(fn, func(in ssa.Instruction) {
+		if mu, ok := in.(*ssa.MapUpdate); ok && fi.Sym(mu.Map).String() == "snapshots.used" {
+			pins = append(pins, mu)
+		}
+	})
+	h.C.Floor(rule+" (use registrations in snapshots.open)", len(pins), 1)
+	if len(pins) == 0 {
+		return
+	}
+	pin := pins[0]
+	_, muHeld := ls[pin]["snapshots.mu"]
+	keyLatest := fi.Sym(pin.Key).String() == "snapshots.index"
+	h.C.Check(rule+" pinned-with-the-index", "(*snapshots).open use registration", muHeld && keyLatest, h.pos(pin),
+		fmt.Sprintf("the use count must be registered for the latest index while snaps.mu is held (done publishes and prunes under it): key is snaps.index=%v, snaps.mu held=%v", keyLatest, muHeld))
+	nFile := 0
+	core.Instrs(fn, func(in ssa.Instruction) {
+		c, ok := in.(*ssa.Call)
+		if !ok {
+			return
+		}
+		sc := c.Common().StaticCallee()
+		if sc == nil {
+			return
+		}
+		if sc.Pkg != nil && sc.Pkg.Pkg.Path() == "os" || h.touchesFiles(sc) {
+			if sc.Pkg != nil && sc.Pkg.Pkg.Path() == "os" && !h.touchesFiles(sc) && sc.Name() != "Open" && sc.Name() != "Stat" && sc.Name() != "OpenFile" {
+				return
+			}
+			nFile++
+			h.C.Check(rule+" registered-before-files", fmt.Sprintf("(*snapshots).open file access#%d %s", nFile, sc.Name()), core.Dominates(pin, in), h.pos(in),
+				"snapshots.open looks at the files of the latest snapshot before it registered its use: a snapshot published in between prunes them (ENOENT on healthy storage; the leader's replication reports it as a storage fault and the node shuts down)")
+		}
+		// the latest index is not read again: the files opened are the pinned ones
+		if sc.Name() == "latestIndex" || sc.Name() == "meta" {
+			if recv := sc.Signature.Recv(); recv != nil && strings.HasSuffix(recv.Type().String(), ".snapshots") {
+				h.C.Check(rule+" works-with-the-pinned-index", "(*snapshots).open call "+sc.Name(), false, h.pos(in), "snapshots.open reads the latest index again after/besides registering its use: the files it opens may belong to a different snapshot than the one it pinned")
+			}
+		}
+	})
+	h.C.Floor(rule+" (file accesses in snapshots.open)", nFile, 2)
+	// done: prune under the hold of snaps.mu it published under
+	done := h.fn("raft:(*snapshotSink).done")
+	dfi := h.P.Info(done)
+	dls := dfi.Locksets(core.LockState{})
+	ar := h.fn("raft:(*snapshots).applyRetain")
+	nAr := 0
+	for k, site := range h.P.Callers(ar) {
+		nAr++
+		ok := false
+		if site.Fn == done {
+			m, has := dls[site.Instr]["snapshotSink.snaps.mu"]
+			ok = has && m == "W"
+		}
+		h.C.Check(rule+" prune-under-publish-lock", fmt.Sprintf("%s → (*snapshots).applyRetain#%d", h.name(site.Fn), k+1), ok, h.pos(site.Instr), "applyRetain runs outside the critical section of snaps.mu in which snapshotSink.done published the new index: an opener can pin the old latest snapshot after the prune decided to delete it")
+	}
+	h.C.Floor(rule+" (callers of applyRetain)", nAr, 1)
+	// applyRetain: removes only beyond retain and only unused, under usedMu
+	afi := h.P.Info(ar)
+	als := afi.Locksets(core.LockState{})
+	nRm := 0
+	core.Instrs(ar, func(in ssa.Instruction) {
+		c, ok := in.(*ssa.Call)
+		if !ok {
+			return
+		}
+		sc := c.Common().StaticCallee()
+		if sc == nil || sc.Pkg == nil || sc.Pkg.Pkg.Path() != "os" || !strings.HasPrefix(sc.Name(), "Remove") {
+			return
+		}
+		nRm++
+		idx := ""
+		if nameCall, ok := c.Common().Args[0].(*ssa.Call); ok && len(nameCall.Common().Args) == 2 {
+			idx = afi.Sym(nameCall.Common().Args[1]).String()
+		}
+		var hd *ssa.BasicBlock
+		for _, x := range core.LoopHeaders(ar) {
+			if core.InLoop(x, in.Block()) {
+				hd = x
+			}
+		}
+		unused, beyond := false, false
+		if hd != nil && idx != "" {
+			unused = afi.MustCrossInLoop(hd, in, func(a core.Atom) bool {
+				return a.Implies(core.MkAtom("snapshots.used["+idx+"]", "==", "0"))
+			}).OK
+			beyond = afi.MustCrossInLoop(hd, in, func(a core.Atom) bool {
+				return a.R == "snapshots.retain" && (a.Op == ">=" || a.Op == ">") || a.L == "snapshots.retain" && (a.Op == "<=" || a.Op == "<")
+			}).OK
+		}
+		_, locked := als[in]["snapshots.usedMu"]
+		h.C.Check(rule+" prune-spares-used", fmt.Sprintf("(*snapshots).applyRetain remove#%d", nRm), unused && beyond && locked, h.pos(in),
+			fmt.Sprintf("a snapshot file is removed although it may be in use or within the retained ones (use count of that index tested ==0: %v, position beyond retain: %v, usedMu held: %v)", unused, beyond, locked))
+	})
+	h.C.Floor(rule+" (removals in applyRetain)", nRm, 2)
+}
